@@ -987,16 +987,48 @@ fn c05_check(tier: &str, replay: Option<&str>) -> i32 {
         println!("replay of {file}: no violation of C05");
         return 0;
     }
+    // thorough: every canonical state a single client reaches within three mutating requests
+    let mut states: Vec<String> = ["empty", "one-version", "chain+snapshot", "chain+50KB-snapshot"].iter().map(|s| s.to_string()).collect();
+    if !quick {
+        use crate::alphabet::{canon, AOp, IdClass};
+        let a = alpha(1, 2, false, false, true, &[]);
+        let cfg = Config { days: 14, versions: 100 };
+        let mut seen = std::collections::HashSet::new();
+        let mut frontier: Vec<(Vec<AOp>, crate::model::Model)> = vec![(vec![], crate::model::Model::new(cfg))];
+        for _ in 0..3 {
+            let mut next = vec![];
+            for (h, m) in &frontier {
+                for aop in a.transitions(m) {
+                    if matches!(&aop, AOp::AddSnapshot { id: IdClass::Base, .. }) {
+                        continue; // the corner the property leaves open
+                    }
+                    let Some(pl) = eseq::plan(m, &aop, h.len()) else { continue };
+                    let (m2, _) = eseq::finalize(&pl, None);
+                    if m2.clients == m.clients || !seen.insert(canon(&m2)) {
+                        continue;
+                    }
+                    let mut h2 = h.clone();
+                    h2.push(aop);
+                    states.push(format!("hist:{}", h2.iter().map(|x| x.show()).collect::<Vec<_>>().join(";")));
+                    next.push((h2, m2));
+                }
+            }
+            frontier = next;
+        }
+    }
     let mut tasks = vec![];
     for layer in ["trait", "vfs"] {
         for spec in ["SqlLib", "SqlHttp"] {
-            for state in ["empty", "one-version", "chain+snapshot", "chain+50KB-snapshot"] {
+            for state in states.iter().map(|s| s.as_str()) {
                 for op in FOp::all() {
                     if state == "empty" && !matches!(op, FOp::AvNewClient | FOp::GetChild | FOp::GetSnapshot | FOp::AsSmall) {
                         continue; // client A does not exist yet
                     }
+                    if state.starts_with("hist:") && matches!(op, FOp::As50k | FOp::Av10k) {
+                        continue; // size variants on the four named states only
+                    }
                     tasks.push(json!({"layer": layer, "spec": spec, "state": state, "op": op.name(), "double": false, "window": 0}));
-                    let dbl = if layer == "trait" { true } else if quick { state == "chain+snapshot" && matches!(op, FOp::AvSmall | FOp::AsSmall) || (state == "empty" && op == FOp::AvNewClient && spec == "SqlHttp") } else { true };
+                    let dbl = if state.starts_with("hist:") { layer == "trait" } else if layer == "trait" { true } else if quick { state == "chain+snapshot" && matches!(op, FOp::AvSmall | FOp::AsSmall) || (state == "empty" && op == FOp::AvNewClient && spec == "SqlHttp") } else { true };
                     if dbl {
                         tasks.push(json!({"layer": layer, "spec": spec, "state": state, "op": op.name(), "double": true, "window": if quick { 10 } else { 1000 }}));
                     }
@@ -1076,7 +1108,7 @@ pub fn c03_scenarios(tier: &str) -> Vec<crate::esched::Scenario> {
                 }
                 for a in 0..kinds.len() {
                     for b in a..kinds.len() {
-                        out.push(Scenario { init: init.into(), threads: vec![vec![kinds[a]], vec![kinds[b]]], backend, http, lock_points: false, constructor_thread: false });
+                        out.push(Scenario { init: init.into(), threads: vec![vec![kinds[a]], vec![kinds[b]]], backend, http, lock_points: false, constructor_thread: false, clients: vec![] });
                     }
                 }
             }
@@ -1098,7 +1130,7 @@ pub fn c03_scenarios(tier: &str) -> Vec<crate::esched::Scenario> {
                     if init == "unknown" && !http {
                         continue;
                     }
-                    out.push(Scenario { init: init.into(), threads: vec![t1.clone(), t2.clone()], backend, http, lock_points: false, constructor_thread: false });
+                    out.push(Scenario { init: init.into(), threads: vec![t1.clone(), t2.clone()], backend, http, lock_points: false, constructor_thread: false, clients: vec![] });
                 }
             }
         }
@@ -1109,7 +1141,7 @@ pub fn c03_scenarios(tier: &str) -> Vec<crate::esched::Scenario> {
             for backend in [Backend::SqlShared, Backend::SqlPerThread] {
                 for a in 0..kinds.len() {
                     for b in a..kinds.len() {
-                        out.push(Scenario { init: init.into(), threads: vec![vec![kinds[a]], vec![kinds[b]]], backend, http: true, lock_points: true, constructor_thread: false });
+                        out.push(Scenario { init: init.into(), threads: vec![vec![kinds[a]], vec![kinds[b]]], backend, http: true, lock_points: true, constructor_thread: false, clients: vec![] });
                     }
                 }
             }
@@ -1121,7 +1153,7 @@ pub fn c03_scenarios(tier: &str) -> Vec<crate::esched::Scenario> {
                 for a in 0..tk.len() {
                     for b in a..tk.len() {
                         for c in b..tk.len() {
-                            out.push(Scenario { init: init.into(), threads: vec![vec![tk[a]], vec![tk[b]], vec![tk[c]]], backend, http: true, lock_points: false, constructor_thread: false });
+                            out.push(Scenario { init: init.into(), threads: vec![vec![tk[a]], vec![tk[b]], vec![tk[c]]], backend, http: true, lock_points: false, constructor_thread: false, clients: vec![] });
                         }
                     }
                 }
@@ -1131,7 +1163,7 @@ pub fn c03_scenarios(tier: &str) -> Vec<crate::esched::Scenario> {
         for a in [RKind::AvLatest, RKind::AsLatest, RKind::GcLatest] {
             for b in [RKind::AvLatest, RKind::Gs] {
                 for backend in [Backend::SqlPerThread, Backend::SqlPerProcess] {
-                    out.push(Scenario { init: "chain2+snapshot".into(), threads: vec![vec![a], vec![b]], backend, http: true, lock_points: true, constructor_thread: true });
+                    out.push(Scenario { init: "chain2+snapshot".into(), threads: vec![vec![a], vec![b]], backend, http: true, lock_points: true, constructor_thread: true, clients: vec![] });
                 }
             }
         }
@@ -1221,6 +1253,29 @@ fn run_sched(rep: &mut Report, prop: &str, scs: &[crate::esched::Scenario], boun
 pub fn sched_extra(id: &str, tier: &str) -> Vec<crate::esched::Scenario> {
     use crate::esched::{Backend, RKind, Scenario};
     let quick = tier != "thorough";
+    if id == "C09" {
+        // requests of two different clients overlapping: each must be answered as if alone
+        // (client A has a chain and a snapshot, client B is new to the server)
+        let pairs: Vec<(Vec<RKind>, Vec<RKind>)> = vec![
+            (vec![RKind::AvLatest], vec![RKind::AvNil]),
+            (vec![RKind::AsLatest], vec![RKind::AvNil]),
+            (vec![RKind::AvLatest, RKind::GcLatest], vec![RKind::AvNil, RKind::GcNil]),
+            (vec![RKind::Gs], vec![RKind::AvNil]),
+            (vec![RKind::AvLatest], vec![RKind::AvStale]),
+            (vec![RKind::GcNil], vec![RKind::AvNil, RKind::AsLatest]),
+            (vec![RKind::AvLatest, RKind::AsLatest], vec![RKind::AvNil, RKind::AsLatest]),
+        ];
+        let mut out = vec![];
+        for (a, b) in &pairs {
+            for backend in [Backend::Mem, Backend::SqlShared, Backend::SqlPerThread, Backend::SqlPerProcess] {
+                if quick && backend == Backend::SqlPerProcess && a.len() > 1 {
+                    continue;
+                }
+                out.push(Scenario { init: "chain2+snapshot".into(), threads: vec![a.clone(), b.clone()], backend, http: true, lock_points: false, constructor_thread: false, clients: vec![0, 1] });
+            }
+        }
+        return out;
+    }
     let pairs: Vec<(Vec<RKind>, Vec<RKind>)> = match id {
         "C11" => return c11_scenarios(tier),
         // chain shape: overlapping appends, then the chain is read back
@@ -1259,7 +1314,7 @@ pub fn sched_extra(id: &str, tier: &str) -> Vec<crate::esched::Scenario> {
                     if quick && backend == Backend::SqlPerThread && !http {
                         continue;
                     }
-                    out.push(Scenario { init: init.into(), threads: vec![a.clone(), b.clone()], backend, http, lock_points: false, constructor_thread: false });
+                    out.push(Scenario { init: init.into(), threads: vec![a.clone(), b.clone()], backend, http, lock_points: false, constructor_thread: false, clients: vec![] });
                 }
             }
         }
@@ -1284,14 +1339,14 @@ pub fn c11_scenarios(tier: &str) -> Vec<crate::esched::Scenario> {
     for (a, b) in &pairs {
         for backend in [Backend::Mem, Backend::SqlShared, Backend::SqlPerThread] {
             for http in [false, true] {
-                out.push(Scenario { init: "chain2+snapshot".into(), threads: vec![a.clone(), b.clone()], backend, http, lock_points: !quick && backend != Backend::Mem, constructor_thread: false });
+                out.push(Scenario { init: "chain2+snapshot".into(), threads: vec![a.clone(), b.clone()], backend, http, lock_points: !quick && backend != Backend::Mem, constructor_thread: false, clients: vec![] });
             }
         }
     }
     if !quick {
         for backend in [Backend::Mem, Backend::SqlShared] {
-            out.push(Scenario { init: "chain2+snapshot".into(), threads: vec![vec![RKind::AsLatest], vec![RKind::Gs], vec![RKind::AvLatest]], backend, http: true, lock_points: false, constructor_thread: false });
-            out.push(Scenario { init: "chain2+snapshot".into(), threads: vec![vec![RKind::AsLatest], vec![RKind::AsOlder], vec![RKind::Gs]], backend, http: true, lock_points: false, constructor_thread: false });
+            out.push(Scenario { init: "chain2+snapshot".into(), threads: vec![vec![RKind::AsLatest], vec![RKind::Gs], vec![RKind::AvLatest]], backend, http: true, lock_points: false, constructor_thread: false, clients: vec![] });
+            out.push(Scenario { init: "chain2+snapshot".into(), threads: vec![vec![RKind::AsLatest], vec![RKind::AsOlder], vec![RKind::Gs]], backend, http: true, lock_points: false, constructor_thread: false, clients: vec![] });
         }
     }
     out
